@@ -224,7 +224,9 @@ def _fn_term(name):
 #                   branch) or after it (its direct branch); both orders are exercised (set_plugin_order)
 #   VerifLate       defines one renamed setting and is registered only in the middle of a behaviour (action Register of
 #                   SettingsCase): settings texts are read before and after it arrives
-PLUGIN_SETTINGS = ("verifFlags", "verifRenamed", "verifChoice", "verifMixed", "verifCount", "verifLate")
+PLUGIN_SETTINGS = ("verifFlags", "verifRenamed", "verifRetired", "verifChoice", "verifMixed", "verifCount", "verifKernel",
+                   "verifKernel1", "verifLate")
+RENAMED_WITH_REUSED_OLD, REUSED_NAME = "verifRenamed", "verifRetired"   # a current setting bears a name another one used to have
 LATE_SETTING, LATE_OLD = "verifLate", "verifLateOld"
 ORDERS = ("define-then-modify", "modify-then-define")
 _plugins = {}
@@ -247,7 +249,13 @@ def _plugin_classes():
                                         oldNames=[("verifOldFlags", None)]),
                 setting.Setting("verifRenamed", default=1, description="C17: active, expired and future-expiry old names",
                                 oldNames=[("verifOldActive", None), ("verifOldExpired", datetime.date(2000, 1, 1)),
-                                          ("verifOldFuture", datetime.date(2999, 12, 31))]),
+                                          ("verifOldFuture", datetime.date(2999, 12, 31)), ("verifRetired", None)]),
+                setting.Setting("verifRetired", default=0, description="C17: a new setting that re-uses a name verifRenamed used to have"),
+                # enforced options with an EMPTY list: every option comes from another plugin (the shape of neutronicsKernel)
+                setting.Setting("verifKernel", default="", description="C17: enforced options, all contributed by plugins",
+                                options=[], enforcedOptions=True),
+                setting.Setting("verifKernel1", default="", description="C17: enforced options, a single contributed one",
+                                options=[], enforcedOptions=True),
                 setting.Setting("verifChoice", default="x", description="C17: enforced options extended by Option/Default",
                                 options=["x", "y"], enforcedOptions=True),
                 setting.Setting("verifMixed", default=[1.5, 2.5], description="C17: non-empty list default (contained type float)"),
@@ -258,7 +266,9 @@ def _plugin_classes():
         @staticmethod
         @plugins.HOOKIMPL
         def defineSettings():
-            return [setting.Option("z", "verifChoice"), setting.Default("y", "verifChoice"), setting.Default(7, "verifCount")]
+            return [setting.Option("z", "verifChoice"), setting.Default("y", "verifChoice"), setting.Default(7, "verifCount"),
+                    setting.Option("k1", "verifKernel"), setting.Option("k2", "verifKernel"), setting.Default("k1", "verifKernel"),
+                    setting.Option("only", "verifKernel1"), setting.Default("only", "verifKernel1")]
 
     class VerifLate(plugins.ArmiPlugin):
         @staticmethod
